@@ -101,8 +101,8 @@ def run_case(case):
     return R(None, oc, steps=len(steps), tags={spelling, form} | set(kinds))
 
 
-EXTRAS = [['k'], ['s'], ['n'], ['0'], ['1'], ['5'], ['-1'], ['x'], ['ro'], ['n', 'm'], ['5', 'k'], ['k', 'k'], ['zz', '0']]
-SPELLINGS = ['text', 'path', 'tnat', 'mixed', 'sroot']
+EXTRAS = [['k'], ['s'], ['n'], ['0'], ['1'], ['5'], ['-1'], ['-2'], ['-3'], ['x'], ['ro'], ['n', 'm'], ['5', 'k'], ['k', 'k'], ['zz', '0']]
+SPELLINGS = ['text', 'path', 'tnat', 'mixed', 'sroot', 'tflip']
 
 
 def gen_cases(tier):
